@@ -92,8 +92,7 @@ def consistency : Handler := fun args =>
   Json.mkObj [("out", outJson p (checkConsistency p)),
               ("alts", altsJson p (consistencyAlts p)),
               ("consistent", Json.bool (consistentB p)),
-              ("broken", Json.arr ((brokenRules p).map Json.str).toArray),
-              ("ambiguous", Json.bool (ambiguousSelfDep p))]
+              ("broken", Json.arr ((brokenRules p).map Json.str).toArray)]
 
 /-- `graph.CheckCycle` alone -/
 def cycle : Handler := fun args =>
